@@ -267,6 +267,39 @@ def pairs():
                     return None
             await b.probe('await task[cancelled before start]', wait)
 
+    @add('await task[failed]')
+    async def _(b):
+        async def failing():
+            raise KeyError('the task has failed')
+        try:
+            async with Scope() as scope:
+                task = scope.do(failing())
+        except usim.Concurrent:
+            pass
+
+        async def wait():
+            try:
+                await task
+            except KeyError:
+                return None
+        await b.probe('await task[failed]', wait)
+        await b.probe('await task.done[failed]', lambda: _aw(task.done))
+
+    @add('await task[cancelled while running]')
+    async def _(b):
+        async with Scope() as scope:
+            task = scope.do(_sleep(5))
+            await (time + 1)
+            task.cancel()
+            await (time + 1)
+
+            async def wait():
+                try:
+                    await task
+                except usim.TaskCancelled:
+                    return None
+            await b.probe('await task[cancelled while running]', wait)
+
     @add('await scope[body done]')
     async def _(b):
         async with Scope() as scope:
